@@ -1,2 +1,53 @@
+"""C03: sweep monitor checks (termination within maxiter sweeps, the returned
+vectors are the last iterate and the convergence predicate holds on them)."""
+import math
+
+
+def _allclose(a, b, rtol, atol):
+    for x, y in zip(a, b):
+        if math.isnan(x) or math.isnan(y):
+            return False
+        if x == y:
+            continue
+        if math.isinf(x) or math.isinf(y):
+            return False
+        if abs(x - y) > atol + rtol * abs(y):
+            return False
+    return True
+
+
 def check_sweeps(sess, op, kw, table):
-    pass
+    sw = sess.w.sweeps
+    maxiter = kw.get("maxiter", 10000)
+    vtol, itol = kw.get("vtol", 1e-6), kw.get("itol", 1e-6)
+    nph = max(1, len(table.phases))
+    sess.stats["sweeps"] += sw.fwd
+    if sw.fwd > nph * (maxiter + 1):
+        sess.fail("C03", "terminates-within-maxiter", "%d sweeps for %d phase(s) with maxiter=%d" % (sw.fwd, nph, maxiter))
+    if nph != 1 or not sw.hist:
+        return
+    v_in, i_in, v_out, i_out = sw.hist[-1]
+    ph = table.phases[0]
+    rows = table.comp[ph]
+    # the returned vectors are the input of the last sweep (the last iterate
+    # that was compared), never an older or a half-updated one
+    def sub(cells, vec):
+        pool = list(vec)
+        for c in cells:
+            try:
+                pool.remove(c)
+            except ValueError:
+                return c
+        return None
+
+    miss = sub([r["Vout (V)"] for r in rows.values()], v_in)
+    if miss is not None:
+        sess.fail("C03", "returns-last-iterate", "Vout cell %r is not in the voltage vector entering the last sweep" % (miss,))
+    miss = sub([r["Iin (A)"] for r in rows.values()], i_in)
+    if miss is not None:
+        sess.fail("C03", "returns-last-iterate", "Iin cell %r is not in the current vector entering the last sweep" % (miss,))
+    atol = sess.tol_atol
+    if not (_allclose(v_in, v_out, vtol, atol) and _allclose(i_in, i_out, itol, atol)):
+        worst = max((abs(a - b) / max(abs(b), 1e-300), a, b) for a, b in list(zip(v_in, v_out)) + list(zip(i_in, i_out)) if a != b)
+        sess.fail("C03", "converged-at-requested-tolerance", "returned after %d sweeps although the last two iterates differ by %.3g relative (%r vs %r); vtol=%g itol=%g" % (sw.fwd, worst[0], worst[1], worst[2], vtol, itol))
+    sess.stats["c03_sweep_checks"] += 1
